@@ -1,0 +1,173 @@
+//go:build verif
+
+package tars
+
+import (
+	"sync/atomic"
+
+	"github.com/TarsCloud/TarsGo/tars/util/endpoint"
+)
+
+// Hooks for runtime verification builds (build tag verif).  Everything here only adds
+// constructors for isolated instances and read-only probes; nothing changes behaviour of the
+// regular code paths.
+
+// VerifApp is an isolated application instance: its own filter set and client configuration,
+// no configuration file, no stat/property reporting.
+type VerifApp struct{ a *application }
+
+// VerifNewApp creates an isolated application.
+func VerifNewApp() *VerifApp {
+	a := newApp()
+	a.initOnce.Do(func() {}) // never read a config file / start reporters for this instance
+	return &VerifApp{a: a}
+}
+
+// ClientConfig returns the instance's client configuration (fields may be adjusted before the
+// first communicator is created).
+func (v *VerifApp) ClientConfig() *clientConfig { return v.a.cltCfg }
+
+// NewCommunicator creates a communicator bound to this instance.
+func (v *VerifApp) NewCommunicator(opts ...Option) *Communicator {
+	return newCommunicator(v.a, v.a.cltCfg, opts...)
+}
+
+// NewProtocol returns the real server-side Protocol bound to this instance (the exported
+// NewTarsProtocol leaves the application unset).
+func (v *VerifApp) NewProtocol(d dispatch, imp interface{}, withContext bool) *Protocol {
+	p := NewTarsProtocol(d, imp, withContext)
+	p.app = v.a
+	return p
+}
+
+func (v *VerifApp) RegisterServerFilter(f ServerFilter)    { v.a.allFilters.registerServerFilter(f) }
+func (v *VerifApp) RegisterPreServerFilter(f ServerFilter) { v.a.allFilters.registerPreServerFilter(f) }
+func (v *VerifApp) RegisterPostServerFilter(f ServerFilter) {
+	v.a.allFilters.registerPostServerFilter(f)
+}
+func (v *VerifApp) UseServerFilterMiddleware(m ...ServerFilterMiddleware) {
+	v.a.allFilters.UseServerFilterMiddleware(m...)
+}
+func (v *VerifApp) RegisterClientFilter(f ClientFilter)    { v.a.allFilters.registerClientFilter(f) }
+func (v *VerifApp) RegisterPreClientFilter(f ClientFilter) { v.a.allFilters.registerPreClientFilter(f) }
+func (v *VerifApp) RegisterPostClientFilter(f ClientFilter) {
+	v.a.allFilters.registerPostClientFilter(f)
+}
+func (v *VerifApp) UseClientFilterMiddleware(m ...ClientFilterMiddleware) {
+	v.a.allFilters.UseClientFilterMiddleware(m...)
+}
+
+// VerifSetMsgID sets the process-wide request id counter.
+func VerifSetMsgID(v int32) { atomic.StoreInt32(&msgID, v) }
+
+// VerifMsgID reads the process-wide request id counter.
+func VerifMsgID() int32 { return atomic.LoadInt32(&msgID) }
+
+// VerifQueueLen reads the proxy's in-flight counter.
+func (s *ServantProxy) VerifQueueLen() int32 { return atomic.LoadInt32(&s.queueLen) }
+
+func (s *ServantProxy) verifManager() *endpointManager {
+	m, _ := s.manager.(*endpointManager)
+	return m
+}
+
+// VerifInvokeNum reads the endpoint manager's in-flight counter.
+func (s *ServantProxy) VerifInvokeNum() int32 {
+	if m := s.verifManager(); m != nil {
+		return atomic.LoadInt32(&m.invokeNum)
+	}
+	return 0
+}
+
+// VerifPendingReplies counts the entries of the pending-reply tables of all adapters.
+func (s *ServantProxy) VerifPendingReplies() int {
+	n := 0
+	if m := s.verifManager(); m != nil {
+		m.epList.Range(func(_, v interface{}) bool {
+			v.(*AdapterProxy).resp.Range(func(_, _ interface{}) bool { n++; return true })
+			return true
+		})
+	}
+	return n
+}
+
+// VerifActiveEndpoints returns the keys of the endpoints currently in rotation.
+func (s *ServantProxy) VerifActiveEndpoints() []string {
+	var out []string
+	if m := s.verifManager(); m != nil {
+		m.epLock.Lock()
+		for _, e := range m.activeEp {
+			out = append(out, e.Key)
+		}
+		m.epLock.Unlock()
+	}
+	return out
+}
+
+// VerifCheckStatus runs one synchronous status check of the proxy's endpoint manager (what the
+// periodic checker does).
+func (s *ServantProxy) VerifCheckStatus() {
+	if m := s.verifManager(); m != nil && m.registrar != nil {
+		m.checkStatus()
+	}
+}
+
+// VerifRefresh runs one synchronous endpoint refresh from the registrar.
+func (s *ServantProxy) VerifRefresh() error {
+	if m := s.verifManager(); m != nil {
+		return m.doFresh()
+	}
+	return nil
+}
+
+// VerifShiftHealthClock makes every adapter of the proxy see `seconds` more seconds elapsed since
+// its health timestamps: every comparison in checkActive has the form now-stamp >= K.
+func (s *ServantProxy) VerifShiftHealthClock(seconds int64) {
+	if m := s.verifManager(); m != nil {
+		m.epList.Range(func(_, v interface{}) bool {
+			a := v.(*AdapterProxy)
+			atomic.AddInt64(&a.lastSuccessTime, -seconds)
+			atomic.AddInt64(&a.lastBlockTime, -seconds)
+			atomic.AddInt64(&a.lastCheckTime, -seconds)
+			return true
+		})
+	}
+}
+
+// VerifAdapterHealth is a snapshot of one adapter's health record.
+type VerifAdapterHealth struct {
+	Key           string
+	Status        bool
+	FailCount     int32
+	LastFailCount int32
+	SendCount     int32
+	SuccessCount  int32
+}
+
+// VerifAdapters returns the health records of all adapters created so far.
+func (s *ServantProxy) VerifAdapters() []VerifAdapterHealth {
+	var out []VerifAdapterHealth
+	if m := s.verifManager(); m != nil {
+		m.epList.Range(func(k, v interface{}) bool {
+			a := v.(*AdapterProxy)
+			out = append(out, VerifAdapterHealth{Key: endpoint.Tars2endpoint(*a.point).Key, Status: a.status,
+				FailCount: atomic.LoadInt32(&a.failCount), LastFailCount: atomic.LoadInt32(&a.lastFailCount),
+				SendCount: atomic.LoadInt32(&a.sendCount), SuccessCount: atomic.LoadInt32(&a.successCount)})
+			return true
+		})
+	}
+	return out
+}
+
+// VerifClientsClosed reports, per adapter, whether its transport client considers the connection closed.
+func (s *ServantProxy) VerifClientsClosed() map[string]bool {
+	out := map[string]bool{}
+	if m := s.verifManager(); m != nil {
+		m.epList.Range(func(k, v interface{}) bool {
+			a := v.(*AdapterProxy)
+			out[endpoint.Tars2endpoint(*a.point).Key] = a.tarsClient.VerifIsClosed()
+			return true
+		})
+	}
+	return out
+}
